@@ -352,6 +352,122 @@ example :
       (keptBroken [.para 7 2 1 (Witness.floated Witness.st0) 6 dummyGeo [(0, 0)]] [e]).length = 1 := by
   decide +kernel
 
+/-! ### 5. from the single step to the page: everything registered is continued, in order, at the top of the next page
+
+`continuation_segment` speaks of one iteration of `make_page`'s loop over `context.broken_out_of_flow`.
+Lifted to the whole loop and to the page that `remake_page` returns: the root fragment of the page starts
+with exactly one fragment per registered box, in registration order, each of them a real fragment (never a
+bare placeholder) that shows the lines of its box from the registered resume position up to some later
+position (`ContOf`) — whatever else the page does (floats, clearance, nested absolutely positioned boxes laid
+out in place of their placeholders). Hypothesis, explicit: the registered boxes are `Good` and their resume
+positions well formed (what `segment_wf` gives for every position a layout returns). -/
+
+/-- `g` is a continuation of the registered item `e`: a real fragment whose own-flow lines, followed by what
+some later position `ρ` designates, are what `e.resume` designates in `e.box`. -/
+def ContOf (e : Broken) (g : OFrag) : Prop :=
+  g.isPh = false ∧ ∃ ρ : Option Resume, fragLines g ++ restOut e.box ρ = linesFrom e.box (some e.resume)
+
+/-- One continuation per registered item, in the same order (`ContAll`, spelled out: core has none). -/
+inductive ContAll : List Broken → List OFrag → Prop
+  | nil : ContAll [] []
+  | cons {e : Broken} {g : OFrag} {es : List Broken} {gs : List OFrag} :
+      ContOf e g → ContAll es gs → ContAll (e :: es) (g :: gs)
+
+theorem ContAll.length_eq {es : List Broken} {gs : List OFrag} (h : ContAll es gs) : es.length = gs.length := by
+  induction h with
+  | nil => rfl
+  | cons _ _ ih => simp [ih]
+
+/-- **The loop over `context.broken_out_of_flow`**: one continuation per registered box, in order. -/
+theorem continuations_chain (c : Ctx) (rootTop : Rat) : ∀ (es : List Broken) (acc : World × List OFrag),
+    (∀ e ∈ es, Good e.box ∧ WfSkip e.box (some e.resume)) → (∀ g ∈ acc.2, g.isPh = false) →
+    ∃ gs, (es.foldl (contStep c rootTop) acc).2 = acc.2 ++ gs ∧ ContAll es gs
+  | [], acc, _, _ => ⟨[], by simp, ContAll.nil⟩
+  | e :: es, acc, hes, hacc => by
+    have he := hes e List.mem_cons_self
+    obtain ⟨g, hg, r, hlines, _⟩ := continuation_segment c rootTop acc e he.1 he.2
+    have hph := contStep_notPh c rootTop acc e hacc
+    have hgph : g.isPh = false := hph g (by rw [hg]; simp)
+    obtain ⟨gs, hgs, hall⟩ := continuations_chain c rootTop es (contStep c rootTop acc e)
+      (fun e' he' => hes e' (List.mem_cons_of_mem _ he')) hph
+    refine ⟨g :: gs, ?_, ContAll.cons ⟨hgph, r.resume, hlines⟩ hall⟩
+    simp only [List.foldl_cons]
+    rw [hgs, hg, List.append_assoc]
+    rfl
+
+/-- `set_laid_out_box` on the continuations (absolutely positioned boxes nested in a continued float are laid
+out with the page's) keeps them continuations. -/
+theorem contOf_substAbs (res : List (Nat × OFrag)) (hres : ∀ p ∈ res, p.2.inFlow = false) :
+    ∀ (es : List Broken) (gs : List OFrag), ContAll es gs →
+      ContAll es (substAbsList res gs)
+  | _, _, .nil => by simpa [substAbsList] using ContAll.nil
+  | _, _, .cons (e := e) (g := g) (es := es) (gs := gs) h hrest => by
+    simp only [substAbsList]
+    refine ContAll.cons ⟨substAbs_isPh_of_notPh res g h.1, ?_⟩ (contOf_substAbs res hres es gs hrest)
+    obtain ⟨ρ, hρ⟩ := h.2
+    exact ⟨ρ, by rw [substAbs_lines_of_notPh res hres g h.1]; exact hρ⟩
+
+/-- **Page theorem (out-of-flow boxes)**: the root fragment of every page made by `remake_page` for a block
+root begins with the continuations of the boxes registered by the previous page — all of them, in order, each
+from its registered position — followed by the children of the root's own layout. -/
+theorem page_continues (d : Doc) (id : Nat) (st : OStyle) (kids : List OBox) (hroot : d.root = .block id st kids)
+    (index : Nat) (resume : Option Resume) (np : NextPage) (right : Bool) (brokenIn : List Broken) (rootTop : Rat)
+    (p : Page) (hin : ∀ e ∈ brokenIn, Good e.box ∧ WfSkip e.box (some e.resume))
+    (hp : remakePage d index resume np right brokenIn rootTop = some p) :
+    ∃ gs ks ser idx g, ContAll brokenIn gs ∧ p.root = .block ser id idx st g (gs ++ ks) := by
+  unfold remakePage at hp
+  dsimp only at hp
+  split at hp
+  · simp at hp
+  · rename_i f hfrag
+    simp only [Option.some.injEq] at hp
+    subst hp
+    obtain ⟨gs, hgs, hall⟩ := continuations_chain
+      { pageBottom := d.pageH, currentPage := index + 1, forcedBreak := forcedBreakOf np } rootTop brokenIn
+      (World.empty, []) hin (fun g hg => by simp at hg)
+    simp only [List.nil_append] at hgs
+    have hblock : ∃ g ks, f = .block 0 id 0 st g ks := by
+      rw [hroot] at hfrag
+      split at hfrag
+      · exact layoutBox_block_frag _ _ _ _ _ _ _ _ _ _ _ _ f (by simpa [emptyRoot] using hfrag)
+      · exact layoutBox_block_frag _ _ _ _ _ _ _ _ _ _ _ _ f hfrag
+    obtain ⟨g, ks, rfl⟩ := hblock
+    simp only [substAbs, finishRoot]
+    rw [hgs]
+    exact ⟨_, _, _, _, _, contOf_substAbs _ (absFold_oof _ _ (_, []) (fun q hq => by simp at hq)) _ _ hall, rfl⟩
+
+/-- **Consecutive pages of a document**: what page `p` registered is continued — all of it, in order — at the
+top of the very next page `q` (`continued_next_page` + `page_continues`). -/
+theorem next_page_continues (d : Doc) (id : Nat) (st : OStyle) (kids : List OBox) (hroot : d.root = .block id st kids)
+    (fuel index : Nat) (resume : Option Resume) (np : NextPage) (right : Bool) (brokenIn : List Broken)
+    (rootTop : Rat) (p q : Page) (rest : List Page)
+    (h : makeAllPages d (fuel + 1) index resume np right brokenIn rootTop = some (p :: q :: rest))
+    (hreg : ∀ e ∈ p.broken, Good e.box ∧ WfSkip e.box (some e.resume)) :
+    ∃ gs ks ser idx g, ContAll p.broken gs ∧ q.root = .block ser id idx st g (gs ++ ks) := by
+  obtain ⟨_, fuel', hq⟩ := continued_next_page d fuel index resume np right brokenIn rootTop p q rest h
+  have hq' : remakePage d (index + 1) p.resume p.nextPage (!right) p.broken p.rootTop = some q := by
+    unfold makeAllPages at hq
+    split at hq
+    · cases hq
+    · rename_i q' hq'
+      split at hq
+      · simp only [Option.some.injEq, List.cons.injEq] at hq; rw [← hq.1]; exact hq'
+      · split at hq
+        · simp only [Option.some.injEq, List.cons.injEq] at hq; rw [← hq.1]; exact hq'
+        · cases hq
+  exact page_continues d id st kids hroot (index + 1) p.resume p.nextPage (!right) p.broken p.rootTop q hreg hq'
+
+/-! Non-vacuity of §5 on `exDoc` (below): page 1 registers the float 2, page 2 the absolutely positioned box 4;
+the root of the next page starts with their continuation (first child: same box id), and the hypothesis of
+`next_page_continues` holds for the registered items (`Good`, well-formed resume position). -/
+private def fragId : OFrag → Nat
+  | .para _ id _ _ _ _ _ => id
+  | .block _ id _ _ _ _ => id
+  | .ph _ id _ _ => id
+private def rootKidIds : OFrag → List Nat
+  | .block _ _ _ _ _ ks => ks.map fragId
+  | _ => []
+
 /-! ### non-vacuity
 
 A 2-line paragraph, a 6-line full-width float, a 2-line paragraph with `clear:left`, a 4-line absolutely
@@ -391,6 +507,13 @@ def exAbsInAbs : Doc :=
 example : Witness.summary exAbsInAbs 30 = some
     [([(1, 0), (1, 1), (2, 0), (2, 1), (3, 0), (4, 0), (7, 0), (7, 1), (7, 2)], [(6, 0)]),
      ([(3, 1), (3, 2), (3, 3), (3, 4), (7, 3)], [])] := by decide +kernel
+
+example : (paginate exDoc 40).map (fun ps => ps.map fun p => (p.broken.map (fun e => e.box.id), rootKidIds p.root)) =
+    some [([2], [99]), ([4], [2, 99]), ([], [4, 99])] := by decide +kernel
+
+example : Good (.para 2 6 10 (Witness.floated Witness.st0)) ∧
+    WfSkip (.para 2 6 10 (Witness.floated Witness.st0)) (some (.node 0 (some (.line 3)))) := by
+  simp [Good, WfSkip, Witness.floated, Witness.st0]
 
 /-- `segment` on a resumed layout (the root of `exDoc` resumed at its third child, in an empty world). -/
 example :
